@@ -4484,18 +4484,14 @@ where
       },
       Value::Float(f) => match value {
         token::Value::FLOAT(v) => match &self.state.ctrl {
-          Some(ControlOperator::NE) | Some(ControlOperator::DEFAULT)
-            if (*f - *v).abs() > f64::EPSILON =>
-          {
-            None
-          }
+          Some(ControlOperator::NE) | Some(ControlOperator::DEFAULT) if *f != *v => None,
           Some(ControlOperator::LT) if *f < *v => None,
           Some(ControlOperator::LE) if *f <= *v => None,
           Some(ControlOperator::GT) if *f > *v => None,
           Some(ControlOperator::GE) if *f >= *v => None,
           #[cfg(feature = "additional-controls")]
           Some(ControlOperator::PLUS) => {
-            if (*f - *v).abs() < f64::EPSILON {
+            if *f == *v {
               None
             } else {
               Some(format!("expected computed .plus value {}, got {:?}", v, f))
@@ -4506,7 +4502,7 @@ where
           | Some(ControlOperator::FEATURE)
           | Some(ControlOperator::AND)
           | Some(ControlOperator::WITHIN) => {
-            if (*f - *v).abs() < f64::EPSILON {
+            if *f == *v {
               None
             } else {
               Some(format!("expected value {}, got {:?}", v, f))
@@ -4514,7 +4510,7 @@ where
           }
           #[cfg(not(feature = "additional-controls"))]
           None | Some(ControlOperator::AND) | Some(ControlOperator::WITHIN) => {
-            if (*f - *v).abs() < f64::EPSILON {
+            if *f == *v {
               None
             } else {
               Some(format!("expected value {}, got {:?}", v, f))
